@@ -355,8 +355,8 @@ pub fn gates(out: &Outcome, tier: Tier) -> Vec<String> {
         ("process runs compared", 10_000u64),
         ("no final line break", 40),
         ("has CRLF", 40),
-        ("has empty line", 20),
-        ("has NUL", 20),
+        ("has empty line", 10),
+        ("has NUL", 10),
         ("has 4-byte character", 100),
         ("has 3-byte character", 100),
         ("has 2-byte character", 100),
